@@ -1178,6 +1178,10 @@ func (g *G) addExtends(doc, svcs *Y, c *svcCtx, root string, density int) {
 			bases = append(bases, baseRef{p, name})
 		}
 		bdoc.Set("services", bs)
+		if g.chance("base-res", 1, 3) {
+			// a base file is a compose file in its own right: it may declare resources too
+			g.topResources(bdoc, &svcCtx{dir: dir, vars: c.vars}, fmt.Sprintf("b%d", f), dir)
+		}
 		g.L.Files[p] = Emit(bdoc, nil)
 		g.L.Required = append(g.L.Required, p)
 	}
